@@ -504,8 +504,23 @@ func (s *Ser) block(b *Block, c sctx) []line {
 			if !b.Tight && j > 0 && (!multiBlock || s.St.Canonical || s.pick("itemgap", 3) != 2) {
 				out = append(out, line{s: ""})
 			}
+			// an item may begin with a blank line: the marker stands alone on
+			// its line and the content follows at marker width + 1, however
+			// many spaces follow the marker (an empty item cannot interrupt a
+			// paragraph, so not for the first item of a list that follows a
+			// block of a tight sequence without a blank line)
+			// (nor where the bare marker would complete a thematic break with
+			// the enclosing items' bullets on the same line: "* * *")
+			if !s.St.Canonical && !(j == 0 && c.noDash) && !(j == 0 && !b.Ordered && strings.Count(c.bullets, bullet) >= 2) &&
+				len(inner) > 0 && inner[0].s != "" && s.pick("blankstart", 6) == 5 {
+				w = len(ind) + len(marker) + 1
+				out = append(out, line{s: ind + marker + strings.Repeat(" ", s.pick("blankstartsp", 3))})
+				inner = append([]line{{s: ""}}, inner...)
+			}
 			for i, l := range inner {
 				switch {
+				case i == 0 && l.s == "":
+					// the marker line was written above
 				case i == 0:
 					out = append(out, line{s: ind + marker + strings.Repeat(" ", n) + l.s})
 				case l.s == "":
